@@ -375,7 +375,9 @@ def run_trace_stream(ctx, res, n, only=None):
         except C.DriverUnavailable as ex:
             res.notes.append("driver unavailable: %s" % ex)
     for idx, (seed, sc_no, box, kept) in enumerate(boxes):
-        res.evaluations += 1
+        res.count("tr:scenarios")
+        # one evaluation = one received datagram whose handling (routing, format) is compared and judged
+        res.evaluations += max(1, sum(1 for b in kept if b["kind"] == "rx"))
         tr = box["tr"]
         case = {"stream": "tr", "seed": seed, "scenario": sc_no, "sockets": box["layout"], "receiving_socket": box["rx_i"],
                 "services": [(i.name, i.server, i.host_ttl, i.other_ttl) for i in box["infos"]],
